@@ -317,6 +317,8 @@ def prof_versions(rng, n, tier):
                 mutate(h, t, rng.randint(1, 4))
             # every captured version is read back after every step
             for x in trees:
+                if i % 3 == 2:
+                    h.ops.append("dirty %d" % x)     # ... and asked whether it has unsaved changes, just before it is listed
                 h.ops.append("iter %d" % x)
             for cu in curs:
                 h.ops += ["cmin %d" % cu, "cget %d" % cu]
@@ -650,6 +652,11 @@ def prof_persist(rng, n, tier):
                     h.mkroot(c2); h.ops.append("dirty %d" % c2)
             r2 = h.mkroot(x)
             h.ops.append("dirty %d" % x)
+            if h.fmt == "v1" and rng.random() < 0.5:
+                # the root as an application that predates NodeFormat keeps it: no format field (= v1marshaler)
+                r3 = h.nr; h.nr += 1
+                h.ops.append("rootset %d %d - - - empty 0" % (r3, r2)); h.roots[r3] = dict(h.roots[r2])
+                y = h.load(r3); h.observe(y)
             if rng.random() < 0.5:
                 x = h.load(r2)
             h.observe(x)
